@@ -201,6 +201,24 @@ def main():
                                               dict(strict=CC.case_to_replay(E.Case(r, small=(v,), cfg=CC.CFG_NONE)), relaxed=CC.case_to_replay(c), edge='add-record'))
                 run.block(f'ADD/{r}/w{wi}', 2 * len(pairs), nt, True, deviations=2, window=[lo, hi])
 
+    # ---- more miscleavages on an mRNA_end_NF transcript: two variants in different cleavage products near the clipped
+    # 3' end (the truncated last node is reached by the deeper traversal first)
+    if not run.only or 'nfend' in run.only:
+        ref = panel.get('R5')
+        tx = 'ENST05'
+        L = ref.tx_len(tx)
+        pos = list(range(max(12, L - 96), L - 3, 3 if run.tier == 'thorough' else 6))
+        snv = {p: E.small_alphabet(ref, tx, p, reduced=True)[0] for p in pos}
+        pairs = [(snv[a], snv[b]) for i, a in enumerate(pos) for b in pos[i + 1:] if b - a >= 6]
+        res = {}
+        for m in (2, 3, 4):
+            cfg = E.Cfg(exception=None, misc=m, max_length=40)
+            cases = [E.Case('R5', small=pr, cfg=cfg) for pr in pairs]
+            res[m] = (cases, E.run_block(f'NFEND/R5/m{m}', cases, jobs=run.jobs)[0])
+        for a, b in ((2, 3), (3, 4)):
+            nt = compare(run, f'R5/m{a}->m{b}', res[a][0], res[a][1], res[b][0], res[b][1], None, f'nfend:m{a}->m{b}')
+            run.block(f'NFEND/R5/m{a}->m{b}', len(pairs), nt, True, deviations=2, tag='mRNA_end_NF')
+
     # ---- adding a unit (a fusion / circRNA record, i.e. another GVF file) to a case that has other units ----
     # every later unit of a transcript reads the transcript's variant series; a unit that alters shared state
     # shows up as peptides of the *other* units disappearing when the record is added
